@@ -6,11 +6,31 @@ import os
 ROOT = os.path.dirname(os.path.dirname(os.path.abspath(__file__)))
 
 CHECKS = {
+    "C01": dict(
+        cat="model_checking", ref="DESIGN.md §4 C01",
+        technique="TLA+ spec PushInstr/PushVM (every instruction + interpreter loop); TLC exhaustive over the single-instruction universe and over all small programs; spec->impl replay of every TLC case on the real PushState; impl->spec trace validation of random programs by TLC",
+        text="The instruction semantics of the property are an explicit TLA+ specification. TLC enumerates every instruction x every boundary state of its footprint (depth <= operands+1 over boundary alphabets incl. i64 extremes, NaN, infinities, signed zeros; destination full / one below full) and every program of <= 3/4 items over a control-flow alphabet; each case is executed on the real interpreter and must give an allowed outcome; random 60-gene programs over the full instruction set are run step by step and every step must be a Step of the specification.",
+        note="Numbers are compared inside the phi/psi windows only (cuts are counted in evidence). Float predicates follow the OrderedFloat total order. Error texts are not compared. Trusts TLC, the harness projections and the builder used to construct pre-states."),
+    "C02": dict(
+        cat="model_checking", ref="DESIGN.md §4 C02",
+        technique="TLA+ PushInstr/PushVM: invariant FailedUnchanged over the fault-point universe and action property FailureIsNoop on the interpreter model (TLC); replay of every fault-point case on the real code comparing the state inside Err with the pre-state by PushState ==; trace validation of random runs",
+        text="Every point at which underflow, overflow or an arithmetic fault can strike an instruction (each footprint stack empty / one short / enough / one below full / full) is a state of the TLC universe; on the model failure = no-op is an invariant, on the real code every such case must hand back a state equal to the pre-state (all stacks, limits, stdout, inputs) with the allowed error kind; after a recoverable error the real interpreter must continue exactly like the model.",
+        note="Same windows and latitude (L1) as C01. Over-full stacks (maximum lowered below the size through stack_mut) are outside the universe."),
+    "C03": dict(
+        cat="model_checking", ref="DESIGN.md §4 C03",
+        technique="TLA+ PushVM interpreter loop: TLC checks StepBound, SizeBound, FatalOnlyOverflow, the variant and liveness <>(halted) under weak fairness over all small programs x limits; replay of all behaviours; trace validation of random runs; long real runs (<=1e5 steps) validated against TraceBounds_PushVM with a hang watchdog",
+        text="Totality and boundedness are invariants and a liveness property of the interpreter model, checked by TLC for all programs of <= 3/4 items (incl. dup_block / exec.dup growth idioms) x stack limits x step limits; the real interpreter is replayed on all of them, trace-validated on random programs, and run for up to 1e5 steps on exponential, self-replicating, flat and extreme-arithmetic programs where sizes, abort cause, output-prefix monotonicity and (for flat programs) the exact step count are validated by TLC.",
+        note="Inputs mentioned by programs are bound. A panic or watchdog timeout is an observed outcome no action allows. Real schedules beyond 1e5 steps / stacks beyond 1e3 are not explored."),
     "C04": dict(
         cat="model_checking", ref="DESIGN.md §4 C04",
         technique="TLA+ spec BoundedStack.tla; TLC exhaustive over the state/operation universe with the property's clauses as action properties; every emitted case replayed on the real Stack; random histories of the real Stack trace-validated by TLC",
         text="TLC explores every stack content up to the configured depth x every capacity x every operation and checks all-or-nothing, LIFO order, payload and capacity clauses on the specification; each explored (state, operation) is executed on a real Stack<u8> and must produce an allowed outcome (exhaustive in that scope), and long random histories on one real object must be behaviours of the specification.",
         note="Trusts TLC, the Json module, and the harness projection (contents read by popping a clone). Element type u8. Scope: depth<=3/5, capacities 0..3/0..5, bulk<=2/3 exhaustively; random histories of 150/200 operations beyond that."),
+    "C05": dict(
+        cat="model_checking", ref="DESIGN.md §4 C05",
+        technique="TLA+ spec Plushy.tla: recursive-descent Parse vs an independent block-stack state machine, TLC over all gene sequences <= 6/8; every genome replayed through the real From<Plushy>; num_opens table conformance; random 200-gene genomes trace-validated",
+        text="TLC checks on every gene sequence up to 6 (thorough 8) genes over {close, opens 0/1/2} that the two independent definitions of the translation agree, that the result reads depth-first as the genome's instructions, is well formed, and that translation terminates; every one of those genomes is translated by the real code and compared; num_opens() of every instruction the crate lists is compared with the documented table; random genomes of up to 200 genes (deep nesting, trailing opens, runs of closes) are checked by TLC against Parse.",
+        note="One-block instructions are distinguished only by variant (three exist). Trusts TLC and the gene<->instruction encoding of the harness."),
 }
 
 PENDING = {}
